@@ -106,5 +106,44 @@ TE.TIES['gettextdate'] = {
                                     ("def parse_date(s):\n", "def parse_date(s):\n    '''canonical text -> aware datetime'''\n")),
   }}
 
+PF = 'lib/strformat/python.py'
+TE.TIES['pyfmtconv'] = {
+  'translators': ['pyfmtconv'], 'module': 'I18n.Props.C12Tie', 'tests': ['tests/test_strformat_python.py'],
+  'edits': {
+   'seeded/C12-b': seeded('C12-b'), 'seeded/C12-c': seeded('C12-c'),
+   'hash-flag-float-dropped': ed(PF, ("                if conv not in i.oct_cvt + i.hex_cvt + i.float_cvt:", "                if conv not in i.oct_cvt + i.hex_cvt:")),
+   'zero-flag-int-only': ed(PF, ("                assert flag in '0 +'\n                if conv not in i.int_cvt + i.float_cvt:", "                assert flag in '0 +'\n                if conv not in i.int_cvt:")),
+   'redundant-count-two': ed(PF, ("            if count != 1:", "            if count > 2:")),
+   'plus-space-pair-dropped': ed(PF, ("        for f1, f2 in [('-', '0'), ('+', ' ')]:", "        for f1, f2 in [('-', '0')]:")),
+   'width-limit-inclusive': ed(PF, ("        elif width > SSIZE_MAX:", "        elif width >= SSIZE_MAX:")),
+   'prec-limit-minus-two': ed(PF, ("            if (conv in i.int_cvt) and (prec > SSIZE_MAX - 3):", "            if (conv in i.int_cvt) and (prec > SSIZE_MAX - 2):")),
+   'prec-limit-all-conversions': ed(PF, ("            if (conv in i.int_cvt) and (prec > SSIZE_MAX - 3):", "            if prec > SSIZE_MAX - 3:")),
+   'prec-error-class': ed(PF, ("                raise PrecisionRangeError(s, prec)", "                raise WidthRangeError(s, prec)")),
+   'star-precision-not-registered': ed(PF, ("            assert prec is None\n            try:\n                parent.add_argument(None, VariablePrecision(self))\n            except IndexError:\n                raise ArgumentIndexingMixture(s)\n            prec = ...", "            assert prec is None\n            prec = ...")),
+   'star-width-as-precision': ed(PF, ("                parent.add_argument(None, VariableWidth(self))", "                parent.add_argument(None, VariablePrecision(self))")),
+   'precision-warning-class': ed(PF, ("                parent.warn(RedundantPrecision, s, prec)", "                parent.warn(RedundantFlag, s, prec)")),
+   'redundant-precision-c-only': ed(PF, ("            if conv in 'c%':", "            if conv in 'c':")),
+   'length-warning-dropped': ed(PF, ("        if length is not None:\n            parent.warn(RedundantLength, s, length)\n", "")),
+   'type-chr-as-str': ed(PF, ("            tp = 'chr'", "            tp = 'str'")),
+   'type-a-unknown': ed(PF, ("        elif conv in 'ra':", "        elif conv in 'r':")),
+   'obsolete-i': ed(PF, ("            if conv == 'u':", "            if conv == 'i':")),
+   'forbidden-key-allowed': ed(PF, ("            if key is not None:\n                raise ForbiddenArgumentKey(s)", "            if key is not None:\n                pass")),
+   'mixture-error-class': ed(PF, ("            try:\n                parent.add_argument(key, self)\n            except IndexError:\n                raise ArgumentIndexingMixture(s)", "            try:\n                parent.add_argument(key, self)\n            except IndexError:\n                raise ForbiddenArgumentKey(s)")),
+   'add-argument-unnamed-after-named': ed(PF, ("        if key is None:\n            if self._map_arguments:\n                raise IndexError\n", "        if key is None:\n")),
+   'add-argument-prepends': ed(PF, ("            self._seq_arguments += [arg]", "            self._seq_arguments = [arg] + self._seq_arguments")),
+   # behaviour-preserving
+   'bp-rename-locals': ed(PF, ("        for flag, count in flags.items():\n            if count != 1:\n                parent.warn(RedundantFlag, s, flag, flag)\n            if flag == '#':", "        for fl, cnt in flags.items():\n            if cnt != 1:\n                parent.warn(RedundantFlag, s, fl, fl)\n            if fl == '#':"),
+                          ("                    parent.warn(RedundantFlag, s, flag)\n            elif flag == '-':\n                pass\n            else:\n                assert flag in '0 +'\n                if conv not in i.int_cvt + i.float_cvt:\n                    parent.warn(RedundantFlag, s, flag)",
+                           "                    parent.warn(RedundantFlag, s, fl)\n            elif fl == '-':\n                pass\n            else:\n                assert fl in '0 +'\n                if conv not in i.int_cvt + i.float_cvt:\n                    parent.warn(RedundantFlag, s, fl)"),
+                          ("        for f1, f2 in [('-', '0'), ('+', ' ')]:\n            if (f1 in flags) and (f2 in flags):\n                parent.warn(RedundantFlag, s, f1, f2)", "        for a, b in [('-', '0'), ('+', ' ')]:\n            if (a in flags) and (b in flags):\n                parent.warn(RedundantFlag, s, a, b)")),
+   'bp-flip-comparisons': ed(PF, ("            if count != 1:", "            if 1 != count:"), ("        elif width > SSIZE_MAX:", "        elif SSIZE_MAX < width:"), ("        if tp == 'None':", "        if 'None' == tp:"), ("            if prec > SSIZE_MAX:", "            if SSIZE_MAX < prec:")),
+   'bp-alias-moved': ed(PF, ("        assert s[-1] == conv, f'{s[-1]} != {conv}'\n        i = _info\n", "        i = _info\n        assert s[-1] == conv, f'{s[-1]} != {conv}'\n")),
+   'bp-split-helper': ed(PF, ("class VariableWidth:", "def _is_integer_conversion(conv):\n    return conv in _info.int_cvt\n\nclass VariableWidth:"), ("            if (conv in i.int_cvt) and (prec > SSIZE_MAX - 3):", "            if _is_integer_conversion(conv) and (prec > SSIZE_MAX - 3):")),
+   'bp-elif-to-nested-if': ed(PF, ("            elif flag == '-':\n                pass\n            else:\n                assert flag in '0 +'\n                if conv not in i.int_cvt + i.float_cvt:\n                    parent.warn(RedundantFlag, s, flag)",
+                                   "            else:\n                if flag == '-':\n                    pass\n                else:\n                    assert flag in '0 +'\n                    if conv not in i.int_cvt + i.float_cvt:\n                        parent.warn(RedundantFlag, s, flag)")),
+   'bp-not-in': ed(PF, ("                if conv not in i.oct_cvt + i.hex_cvt + i.float_cvt:", "                if not (conv in i.oct_cvt + i.hex_cvt + i.float_cvt):")),
+   'bp-comments-docstrings': ed(PF, ("    def add_argument(self, key, arg):\n", "    def add_argument(self, key, arg):\n        '''register one argument'''\n"), ("        i = _info\n        for flag, count", "        i = _info\n        # the flags, one by one:\n        for flag, count")),
+  }}
+
 if __name__ == '__main__':
     TE.main()
